@@ -404,6 +404,23 @@ def gen_depth_tensor(r, n_samples, n_pos, th, zero_samples, ref_idx=None, r2=Non
                         d[ref_idx[p_]] = r2.choice([0, 1, 1, 2])
                 site.append(d)
             special[p_] = site
+        elif ref_idx is not None and r2 is not None and ref_idx[p_] >= 0 and r2.random() < 0.08:
+            # deep site with two alternative alleles whose mean frequencies differ by less than the printed precision
+            # (a few parts in 10^4): the documented order is by the frequencies themselves, not by what is printed
+            alts_ = [a for a in range(4) if a != ref_idx[p_]]
+            r2.shuffle(alts_)
+            a_, b_ = alts_[0], alts_[1]
+            site = []
+            for s in range(n_samples):
+                d = [0, 0, 0, 0]
+                if not (zero_samples and r2.random() < 0.2):
+                    tot = r2.choice([2000, 3000, 4001, 6000])
+                    k = r2.randint(tot // 5, tot // 3)
+                    d[a_] = k + r2.choice([1, 1, 2])
+                    d[b_] = k
+                    d[ref_idx[p_]] = tot - d[a_] - d[b_]
+                site.append(d)
+            special[p_] = site
     for p_ in range(n_pos):
         site = []
         kind = r.random()
